@@ -9,6 +9,7 @@ pub mod c09;
 pub mod c10;
 pub mod c11;
 pub mod c13;
+pub mod c14;
 pub mod c15;
 pub mod c17;
 pub mod c19;
@@ -27,6 +28,7 @@ pub fn run(prop: &str, tier: Tier) -> Report {
         "C10" => c10::run(tier),
         "C11" => c11::run(tier),
         "C13" => c13::run(tier),
+        "C14" => c14::run(tier),
         "C15" => c15::run(tier),
         "C17" => c17::run(tier),
         "C19" => c19::run(tier),
@@ -50,6 +52,7 @@ pub fn replay(prop: &str, _tier: Tier, case: &serde_json::Value) -> Vec<Violatio
         "C10" => c10::replay(case),
         "C11" => c11::replay(case),
         "C13" => c13::replay(case),
+        "C14" => c14::replay(case),
         "C15" => c15::replay(case),
         "C17" => c17::replay(case),
         "C19" => c19::replay(case),
